@@ -101,6 +101,93 @@ RefVerdict(tr, root, reacts) ==
 TapOK(tr, root) == root.op = "tap" =>
   \A i \in 1..Len(tr) : LET P(o) == LET s == SelectSeq(tr[i].obs, LAMBDA e : e.o = o) IN [j \in 1..Len(s) |-> <<s[j].k, s[j].v>>] IN P("tap") = P("cb")
 
+HasReact(c) == c.react.unsub_at # 0 \/ c.react.emit_at # 0 \/ c.react.sub_at # 0
+HasPublish(c) == \E i \in 1..Len(c.conn) : c.conn[i].kind = "publish"
+
+\* ---------------------------------------------------------------- C10: subjects multicast to exactly the current observers; late joiners get history
+\* The four automata exactly as the statement gives them.  Domain: the harness subject 1 observed directly (root = subject) or
+\* through map(+1), no re-entrant reactions.  Where the statement is silent (calls after a terminal, a late subscriber of an
+\* AsyncSubject) the monitor stops judging deliveries and keeps only "holds no observer after a terminal".
+SubjRoot(root) == root.op = "subject" \/ (root.op = "map" /\ root.f = "inc" /\ root.in[1].op = "subject")
+SubjMap(root, v) == IF root.op = "map" THEN v + root.a ELSE v
+Sbj0(kind) == [live |-> {}, items |-> <<>>, last |-> IF kind = "behavior" THEN <<9>> ELSE <<>>, term |-> <<>>, open |-> TRUE]
+NoOut == [u \in Sinks |-> <<>>]
+\* expected deliveries of one stimulus, per sink, and the next state of the automaton
+SbjStep(s, kind, root, st) ==
+  LET M(v) == SubjMap(root, v) IN
+  CASE st.k = "subj" /\ st.e = "n" ->
+         [s |-> [s EXCEPT !.items = Append(@, st.v), !.last = <<st.v>>],
+          out |-> [u \in Sinks |-> IF u \in s.live /\ kind # "async" THEN << <<"n", M(st.v)>> >> ELSE <<>>]]
+    [] st.k = "subj" ->       \* error / complete: every current observer gets the terminal (AsyncSubject: the last item first, on completion)
+         [s |-> [s EXCEPT !.live = {}, !.term = <<[k |-> st.e, v |-> st.v]>>, !.open = FALSE],
+          out |-> [u \in Sinks |-> IF u \notin s.live THEN <<>>
+                                   ELSE (IF kind = "async" /\ st.e = "c" /\ s.last # <<>> THEN << <<"n", M(s.last[1])>> >> ELSE <<>>)
+                                        \o << <<st.e, IF st.e = "e" THEN st.v ELSE 0>> >>]]
+    [] st.k = "sub" ->
+         LET u == st.a IN
+         CASE kind = "behavior" -> [s |-> [s EXCEPT !.live = @ \cup {u}], out |-> [NoOut EXCEPT ![u] = << <<"n", M(s.last[1])>> >>]]
+           [] kind = "replay" -> [s |-> [s EXCEPT !.live = @ \cup {u}], out |-> [NoOut EXCEPT ![u] = [i \in 1..Len(s.items) |-> <<"n", M(s.items[i])>>]]]
+           [] OTHER -> [s |-> [s EXCEPT !.live = @ \cup {u}], out |-> NoOut]
+    [] st.k = "unsub" -> [s |-> [s EXCEPT !.live = @ \ {st.a}], out |-> NoOut]
+    [] OTHER -> [s |-> s, out |-> NoOut]
+PerSink(obs, u) == LET q == SelectSeq(obs, LAMBDA e : e.o = "cb" /\ e.u = u) IN [i \in 1..Len(q) |-> <<q[i].k, q[i].v>>]
+RECURSIVE SbjRun(_,_,_,_,_)
+SbjRun(tr, i, s, kind, root) ==
+  IF i > Len(tr) THEN TRUE
+  ELSE IF ~s.open THEN TRUE            \* after the first terminal the statement is silent (the observer count was judged with the terminal itself)
+  ELSE LET r == SbjStep(s, kind, root, tr[i].st) IN
+       /\ \A u \in Sinks : PerSink(tr[i].obs, u) = r.out[u]
+       /\ (tr[i].cnt # <<>> /\ tr[i].cnt[1] # -1 => tr[i].cnt[1] = Cardinality(r.s.live))       \* holds exactly the current observers
+       /\ SbjRun(tr, i + 1, r.s, kind, root)
+C10verdict(tr, root, c) ==
+  IF ~(SubjRoot(root) /\ Len(c.sbj) >= 1 /\ ~HasReact(c) /\ AllFinOk(tr)) THEN "na"
+  ELSE IF SbjRun(tr, 1, Sbj0(c.sbj[1]), c.sbj[1], root) THEN "ok" ELSE "bad"
+
+\* ---------------------------------------------------------------- C13: connectables share one source subscription
+\* Domain: root = the connectable's observable (conn 1) over an instrumented source (probe / cold / from_iter), no reactions.
+\*   SrcSubs(i)    `subscribed` events of the source during stimulus i
+\*   liveAfter(i)  subscribers present after stimulus i
+SrcId(t) == IF t.op \in {"probe", "cold"} THEN t.a ELSE 0
+SubsIn(tr, i, id) == Len(SelectSeq(tr[i].obs, LAMBDA e : e.o = "probe" /\ e.k = "subscribed" /\ e.u = id))
+RECURSIVE LiveAfter(_,_)
+LiveAfter(tr, i) == IF i = 0 THEN {} ELSE
+  LET prev == LiveAfter(tr, i - 1)
+      endedHere == { u \in Sinks : \E j \in 1..Len(tr[i].obs) : (tr[i].obs[j].o = "cb" /\ tr[i].obs[j].u = u /\ tr[i].obs[j].k \in {"e", "c"}) }
+      st == tr[i].st
+  IN ((IF st.k = "sub" THEN prev \cup {st.a} ELSE IF st.k = "unsub" THEN prev \ {st.a} ELSE prev) \ endedHere)
+ItemsOf(tr, u, upto) == LET f == SelectSeq(FlatFrom(SubSeq(tr, 1, upto), 1), LAMBDA x : IsCb(x, u) /\ x.e.k = "n") IN [i \in 1..Len(f) |-> f[i].e.v]
+C13verdict(tr, root, c) ==
+  IF ~(root.op = "conn" /\ Len(c.conn) >= 1 /\ ~HasReact(c) /\ AllFinOk(tr)) THEN "na"
+  ELSE LET kind == c.conn[1].kind
+           src == c.conn[1].term
+           id == SrcId(src)
+           n == Len(tr)
+           f == Flat(tr)
+           connected(i) == \E j \in 1..i : tr[j].st.k = "connect"
+           \* stimuli at which the single source subscription must have been released: publish -> disconnect; others -> last subscriber left
+           released(i) == IF kind = "publish" THEN tr[i].st.k = "disconnect"
+                          ELSE tr[i].st.k = "unsub" /\ LiveAfter(tr, i) = {} /\ LiveAfter(tr, i - 1) # {}
+       IN IF (/\ (id # 0 =>
+                   \* the source is subscribed only when the statement says so ...
+                   /\ (\A i \in 1..n : SubsIn(tr, i, id) > 0 =>
+                          (IF kind = "publish" THEN tr[i].st.k = "connect" ELSE (tr[i].st.k = "sub" /\ LiveAfter(tr, i - 1) = {})))
+                   \* ... at most once at a time: a further source subscription needs an earlier release
+                   /\ (\A i \in 1..n : SubsIn(tr, i, id) <= 1)
+                   /\ (\A i, j \in 1..n : (i < j /\ SubsIn(tr, i, id) > 0 /\ SubsIn(tr, j, id) > 0) => \E k \in i..(j - 1) : released(k))
+                   \* ref_count / replay subscribe the source when the first subscriber arrives
+                   /\ (kind # "publish" => \A i \in 1..n : (tr[i].st.k = "sub" /\ LiveAfter(tr, i - 1) = {} /\ ~\E j \in 1..(i - 1) : SubsIn(tr, j, id) > 0) => SubsIn(tr, i, id) = 1)
+                   /\ (kind = "publish" => \A i \in 1..n : tr[i].st.k = "connect" => SubsIn(tr, i, id) = 1)
+                   \* releasing stops the source: from then on every attempt of the source sees is_subscribed() = false
+                   /\ (\A i \in 1..n : released(i) => \A q \in 1..Len(f) : (f[q].i > i /\ IsAttempt(f[q]) /\ f[q].e.u = id /\ f[q].e.v = 1) => \E k \in (i + 1)..f[q].i : SubsIn(tr, k, id) > 0))
+               \* every subscriber present sees the same items (publish / ref_count); replay: the whole sequence from the beginning, each once
+               /\ (\A i \in 1..n : (tr[i].st.k = "emit" /\ tr[i].st.e = "n") =>
+                      \A u \in LiveAfter(tr, i - 1) : \A w \in LiveAfter(tr, i - 1) : PerSink(tr[i].obs, u) = PerSink(tr[i].obs, w))
+               /\ (kind = "replay" => \A i \in 1..n : \A u, w \in LiveAfter(tr, i) : ItemsOf(tr, u, i) = ItemsOf(tr, w, i))
+               /\ (kind = "replay" /\ id # 0 /\ src.op = "probe" => \A i \in 1..n : \A u \in LiveAfter(tr, i) :
+                      ItemsOf(tr, u, i) = LET a == SelectSeq(SubSeq(tr, 1, i), LAMBDA x : x.st.k = "emit" /\ x.st.e = "n" /\ \E j \in 1..Len(x.obs) : (x.obs[j].o = "probe" /\ x.obs[j].k = "issub") /\ x.obs[j].v = 1)
+                                         IN [k \in 1..Len(a) |-> a[k].st.v]))
+          THEN "ok" ELSE "bad"
+
 \* ---------------------------------------------------------------- C17: a finished subscription releases the user's callbacks
 \* leakSink / leakOps: a reference-counted token captured by the subscriber's three callbacks / by every closure handed to an
 \* operator is still alive after the harness dropped every handle it holds.
@@ -108,11 +195,10 @@ AllSinksEnded(tr) == LET f == Flat(tr) IN SubbedSinks(tr) # {} /\ \A u \in Subbe
 C17ok(tr, leakSink, leakOps) == (AllFinOk(tr) /\ AllSinksEnded(tr)) => (~leakSink /\ ~leakOps)
 
 \* ---------------------------------------------------------------- all verdicts of one history
-HasReact(c) == c.react.unsub_at # 0 \/ c.react.emit_at # 0 \/ c.react.sub_at # 0
-HasPublish(c) == \E i \in 1..Len(c.conn) : c.conn[i].kind = "publish"
 V(b) == IF b THEN "ok" ELSE "bad"      \* verdicts are strings: "ok" | "bad" | "na"
 Judge(tr, root, c, leakSink, leakOps) ==
   LET rv == RefVerdict(tr, root, HasReact(c)) IN
   [C01 |-> V(C01ok(tr)), C05 |-> V(C05ok(tr)), C06 |-> V(HasPublish(c) \/ C06ok(tr)), C07 |-> V(C07ok(tr)),
-   REF |-> rv, TAP |-> V(rv = "na" \/ TapOK(tr, root)), C17 |-> V(C17ok(tr, leakSink, leakOps))]
+   REF |-> rv, TAP |-> V(rv = "na" \/ TapOK(tr, root)), C17 |-> V(C17ok(tr, leakSink, leakOps)),
+   C10 |-> C10verdict(tr, root, c), C13 |-> C13verdict(tr, root, c)]
 =============================================================================
